@@ -47,6 +47,7 @@ CONTENTS = {
     "repairable": inst("GENV:\n  STATUS::active\n  COUNT::\"5\"\n  NAME::n\n"),
     "unknown_field": inst("GENV:\n  STATUS::ACTIVE\n  NAME::n\n  EXTRA::1\n"),
     "meta_invalid": inst("GENV:\n  STATUS::ACTIVE\n  NAME::n\n", "  TYPE::X\n"),
+    "meta_unknown_field": inst("GENV:\n  STATUS::ACTIVE\n  NAME::n\n", '  TYPE::X\n  VERSION::"1.0"\n  NOT_A_META_FIELD::1\n'),
     "lexer_error": "K::a^b\n",
     "parser_error": "K: v\n",
     "empty": "",
@@ -54,7 +55,7 @@ CONTENTS = {
     "rich": RICH,
 }
 GOODHEX = "a" * 64
-SCHEMA_ARGS = ["META", "DEBATE_TRANSCRIPT", "SKILL", "TEST_HOLOGRAPHIC", GEN, "GENW", "NOPE", "meta", "genv", "../x", "A/B", "META\n", "GENV ",
+SCHEMA_ARGS = ["META", "DEBATE_TRANSCRIPT", "SKILL", "TEST_HOLOGRAPHIC", GEN, "GENW", "BROKEN_TAB", "BROKEN_BRACKET", "NOPE", "meta", "genv", "../x", "A/B", "META\n", "GENV ",
                f"frozen@sha256:{GOODHEX}", "frozen@sha256:zz", "frozen@sha256:" + "a" * 10, "latest", ""]
 PROFILES = ["STRICT", "STANDARD", "LENIENT", "ULTRA", "strict", "BOGUS"]
 STATUSES = {"VALIDATED", "UNVALIDATED", "INVALID"}
@@ -64,7 +65,7 @@ def schema_exists(name: str) -> bool:
     """Harness' own scan of the documented search directories."""
     if name == "META":
         return True
-    if not re.fullmatch(r"[A-Z][A-Z0-9_]*", name):
+    if not re.fullmatch(r"[A-Z][A-Z0-9_]*", name) or name in UNLOADABLE:
         return False
     import octave_mcp
     pkg = os.path.dirname(octave_mcp.__file__)
@@ -77,7 +78,12 @@ def schema_exists(name: str) -> bool:
     return False
 
 
+UNLOADABLE = {"BROKEN_TAB", "BROKEN_BRACKET"}      # a file of that name is found but is not well-formed OCTAVE: an unloadable name
+
+
 def setup():
+    sl.install_schema("BROKEN_TAB", sl.schema_text("BROKEN_TAB", GEN_FIELDS, "REJECT").replace("FIELDS:\n  ", "FIELDS:\n\t"))
+    sl.install_schema("BROKEN_BRACKET", sl.schema_text("BROKEN_BRACKET", GEN_FIELDS, "REJECT").replace("ENUM[ACTIVE,DONE]", "ENUM[ACTIVE,DONE"))
     sl.install_schema(GEN, sl.schema_text(GEN, GEN_FIELDS, "REJECT"))
     sl.install_schema("GENW", sl.schema_text("GENW", GEN_FIELDS, "WARN"))
 
@@ -139,6 +145,13 @@ def check_validate(case) -> Res:
         if r2.get("validation_status") != "VALIDATED":
             viol.append(dict(descriptor="validate:canonical-of-VALIDATED-not-VALIDATED", case=cs, observed=(r2.get("validation_status"), r2.get("validation_errors")),
                              expected="VALIDATED again under the same arguments"))
+    if st == "VALIDATED" and str(profile).upper() in ("STRICT", "STANDARD") and r.get("status") == "success" and isinstance(r.get("canonical"), str) and not diff_only:
+        # whatever the flags did (fix included): the text handed back as VALIDATED must not be INVALID for a plain call
+        r4 = sl.call("v", content=r["canonical"], schema=schema, profile=str(profile).upper())
+        steps += 1
+        if r4.get("validation_status") == "INVALID":
+            viol.append(dict(descriptor="validate:returned-canonical-of-VALIDATED-is-INVALID-for-a-plain-call", case=cs, observed=r4.get("validation_errors"),
+                             expected="the canonical text of a VALIDATED answer validates under the same schema and profile"))
     if st == "VALIDATED" and str(profile).upper() in ("STRICT", "STANDARD") and r.get("status") == "success":
         # no blocking error: an independent re-validation with STANDARD/no flags must not be INVALID
         r3 = sl.call("v", content=CONTENTS[cclass], schema=schema, profile=str(profile).upper())
